@@ -68,6 +68,9 @@ func (e *Enc) buildCallSite(fr *Frame, instr ssa.Instruction, c *ssa.CallCommon)
 func dynCalleeName(v ssa.Value) string {
 	switch x := v.(type) {
 	case *ssa.UnOp:
+		if g, ok := x.X.(*ssa.Global); ok {
+			return g.Name() // call through a package-level function variable
+		}
 		if fa, ok := x.X.(*ssa.FieldAddr); ok {
 			st := fa.X.Type().Underlying().(*types.Pointer).Elem().Underlying().(*types.Struct)
 			return st.Field(fa.Field).Name()
@@ -380,9 +383,11 @@ func (e *Enc) pureInline(fn *ssa.Function, args []Val, st *State) (Val, types.Ty
 	// obligations inside pure evaluation are not generated
 	e.pass = 3
 	e.writeLogs = append(e.writeLogs, map[string]bool{})
+	e.loopLogOwner = append(e.loopLogOwner, nil)
 	e.encodeBody(nf, True, st)
 	log := e.writeLogs[len(e.writeLogs)-1]
 	e.writeLogs = e.writeLogs[:len(e.writeLogs)-1]
+	e.loopLogOwner = e.loopLogOwner[:len(e.loopLogOwner)-1]
 	e.pass = saveObl
 	for k := range log {
 		if !strings.HasPrefix(k, "c:") {
@@ -509,7 +514,7 @@ func (e *Enc) contractCall(fr *Frame, cs *callSite, fc *FuncContract) Val {
 	}
 	pctx := &ExprCtx{e: e, st: post, old: pre, params: params, pkg: pkg, results: results, resNames: resNames, fc: fc}
 	for _, en := range fc.Ensures {
-		if cexprMentions(en.Expr, "ret") || cexprMentions(en.Expr, "retn") {
+		if clauseInternal(fc, en.Expr, 0) {
 			continue // postcondition about the callee's internal calls: not visible to callers
 		}
 		g := e.safeBool(pctx, en, "ensures of "+short)
@@ -1277,4 +1282,20 @@ func sortedModKeys(m map[string]bool) []string {
 	}
 	sort.Strings(ks)
 	return ks
+}
+
+// clauseInternal: does the clause (through lets) refer to results of the callee's internal calls?
+func clauseInternal(fc *FuncContract, x CExpr, depth int) bool {
+	if cexprMentions(x, "ret") || cexprMentions(x, "retn") {
+		return true
+	}
+	if depth > 6 {
+		return false
+	}
+	for _, l := range fc.Lets {
+		if cexprMentions(x, l.Name) && clauseInternal(fc, l.Expr.Expr, depth+1) {
+			return true
+		}
+	}
+	return false
 }
